@@ -5,11 +5,14 @@
 package hlib
 
 import (
+	"bytes"
 	"encoding/json"
 	"flag"
 	"fmt"
 	"hash/fnv"
+	"io"
 	"os"
+	"os/exec"
 	"path/filepath"
 	"sort"
 	"strings"
@@ -27,14 +30,17 @@ type Violation struct {
 
 // Run is what one simulated execution reports.
 type Run struct {
-	Violation  *Violation
-	Counters   map[string]int64 // fault kinds fired, reach probes, ...
-	Nontrivial bool             // by the property's stated rule
-	Hash       uint64           // identity of the case for distinct counting (schedule hash ^ workload hash)
-	Steps      int64
-	VirtualNS  int64
-	Sample     any      // a written-out description of the case (kept for a few runs)
-	Trace      []string // step trace (only filled when tracing is requested)
+	Violation  *Violation       `json:"violation,omitempty"`
+	Counters   map[string]int64 `json:"counters,omitempty"` // fault kinds fired, reach probes, ...
+	Nontrivial bool             `json:"nontrivial"`         // by the property's stated rule
+	Hash       uint64           `json:"hash"`               // identity of the case for distinct counting (schedule hash ^ workload hash)
+	Steps      int64            `json:"steps"`
+	VirtualNS  int64            `json:"virtual_ns"`
+	Sample     any              `json:"sample,omitempty"` // a written-out description of the case (kept for a few runs)
+	Trace      []string         `json:"trace,omitempty"`  // step trace (only filled when tracing is requested)
+	// Choices is filled by isolated (child-process) execution: the values the
+	// child drew.
+	Choices []uint32 `json:"choices,omitempty"`
 }
 
 // Ctx is handed to the property's run function.
@@ -120,6 +126,15 @@ type Harness struct {
 	MinTime time.Duration
 	// FreshProcessReplay: minimisation/replay must re-exec (C09 after a trap).
 	NoInProcessMinimise bool
+	// Isolate executes every run (and every minimisation candidate) in a
+	// fresh child process, so that process-wide state cannot leak from one
+	// run into the next and "across separate processes" is taken literally.
+	Isolate bool
+	// Reference, when set, is invoked in reference mode (-reference): it
+	// reads a request on stdin and writes the answer on stdout. Harnesses use
+	// it to obtain results from a separately built instance in a separate
+	// process with a trivial history.
+	Reference func(in io.Reader, out io.Writer) error
 }
 
 // Hash64 hashes strings for case identity.
@@ -159,6 +174,8 @@ func Main(h *Harness) {
 		known   = flag.String("known", "", "file with known-finding class signatures, one per line (not minimised)")
 		runFrom = flag.Int64("runfrom", 0, "first run index (lets several batches share a seed)")
 		dump    = flag.Bool("dumptrace", false, "with -replay: print the step trace")
+		child   = flag.String("childrun", "", "internal: execute one run described by this JSON file and print the result")
+		refmode = flag.Bool("reference", false, "internal: serve one reference request on stdin/stdout")
 	)
 	args := argList{}
 	flag.Var(args, "arg", "harness argument key=value (repeatable)")
@@ -171,6 +188,25 @@ func Main(h *Harness) {
 		h.MinTime = 90 * time.Second
 	}
 
+	if *refmode {
+		if h.Reference == nil {
+			os.Exit(2)
+		}
+		if h.Setup != nil {
+			if err := h.Setup(args, *tier); err != nil {
+				fmt.Fprintf(os.Stderr, "harness setup failed: %v\n", err)
+				os.Exit(2)
+			}
+		}
+		if err := h.Reference(os.Stdin, os.Stdout); err != nil {
+			fmt.Fprintf(os.Stderr, "reference: %v\n", err)
+			os.Exit(2)
+		}
+		os.Exit(0)
+	}
+	if *child != "" {
+		os.Exit(childMain(h, *child))
+	}
 	if *replay != "" {
 		os.Exit(doReplay(h, *replay, *tier, *dump))
 	}
@@ -224,6 +260,9 @@ func Main(h *Harness) {
 		found[v.Class] = f
 		rf := &ReplayFile{Property: h.Property, Seed: c.Seed, Run: c.RunIx, EnumCase: enumCase, Args: c.Args,
 			Choices: c.S.Recorded(), Oracle: v.Oracle, Class: v.Class, Message: v.Message}
+		if h.Isolate {
+			rf.Choices = r.Choices
+		}
 		rf.OrigLen = len(rf.Choices)
 		if !knownSet[v.Class] && !h.NoInProcessMinimise {
 			minimise(h, rf, *tier)
@@ -258,7 +297,7 @@ func Main(h *Harness) {
 				break
 			}
 			c := &Ctx{S: choice.New(*seed, uint64(i)+1<<40), Tier: *tier, Seed: *seed, RunIx: uint64(i), Args: args}
-			r := h.Enum.RunCase(i, c)
+			r := execFresh(h, c, i)
 			rep.EnumRuns++
 			account(r)
 			if r.Violation != nil {
@@ -273,7 +312,7 @@ func Main(h *Harness) {
 			break
 		}
 		c := &Ctx{S: choice.New(*seed, uint64(run)), Tier: *tier, Seed: *seed, RunIx: uint64(run), Args: args}
-		r := h.Run(c)
+		r := execFresh(h, c, -1)
 		rep.Runs++
 		account(r)
 		if r.Violation != nil {
@@ -332,6 +371,9 @@ func writeJSON(path string, v any) error {
 
 // execVec runs the harness on a recorded vector.
 func execVec(h *Harness, rf *ReplayFile, tier string, trace bool) *Run {
+	if h.Isolate {
+		return runChild(&childReq{Tier: tier, Trace: trace, Seed: rf.Seed, RunIx: rf.Run, Args: rf.Args, EnumCase: rf.EnumCase, Replay: true, Choices: rf.Choices})
+	}
 	c := &Ctx{S: choice.Replay(rf.Choices), Tier: tier, Trace: trace, Seed: rf.Seed, RunIx: rf.Run, Args: rf.Args}
 	if rf.EnumCase >= 0 && h.Enum != nil {
 		return h.Enum.RunCase(rf.EnumCase, c)
@@ -468,4 +510,137 @@ func doReplay(h *Harness, path, tier string, dump bool) int {
 	}
 	fmt.Printf("REPLAY class differs from recorded %q\n", rf.Class)
 	return 3
+}
+
+// ---------------------------------------------------------------------------
+// isolated execution
+
+type childReq struct {
+	Tier     string            `json:"tier"`
+	Trace    bool              `json:"trace"`
+	Seed     uint64            `json:"seed"`
+	RunIx    uint64            `json:"runix"`
+	Args     map[string]string `json:"args"`
+	EnumCase int               `json:"enum_case"`
+	Replay   bool              `json:"replay"`
+	Choices  []uint32          `json:"choices"`
+}
+
+const childMarker = "\n@@VERIF-CHILD-RESULT@@\n"
+
+// execFresh executes a search-mode run, in a child process when the harness
+// asks for isolation.
+func execFresh(h *Harness, c *Ctx, enumCase int) *Run {
+	if !h.Isolate {
+		if enumCase >= 0 {
+			return h.Enum.RunCase(enumCase, c)
+		}
+		return h.Run(c)
+	}
+	return runChild(&childReq{Tier: c.Tier, Seed: c.Seed, RunIx: c.RunIx, Args: c.Args, EnumCase: enumCase})
+}
+
+// runChild re-executes this binary for one run. A child that dies without a
+// result (fatal runtime error, os.Exit inside the code under test) is itself
+// an observation: the process crashed.
+func runChild(req *childReq) *Run {
+	f, err := os.CreateTemp("", "verif-child-*.json")
+	if err != nil {
+		fmt.Fprintf(os.Stderr, "cannot create child request: %v\n", err)
+		os.Exit(2)
+	}
+	defer os.Remove(f.Name())
+	b, _ := json.Marshal(req)
+	f.Write(b)
+	f.Close()
+	cmd := exec.Command(os.Args[0], "-childrun", f.Name())
+	var out, errb bytes.Buffer
+	cmd.Stdout, cmd.Stderr = &out, &errb
+	runErr := cmd.Run()
+	s := out.String()
+	if i := strings.LastIndex(s, childMarker); i >= 0 {
+		var r Run
+		if err := json.Unmarshal([]byte(s[i+len(childMarker):]), &r); err == nil {
+			return &r
+		}
+	}
+	msg := errb.String()
+	if len(msg) > 6000 {
+		msg = msg[:3000] + "\n...\n" + msg[len(msg)-3000:]
+	}
+	first := ""
+	for _, l := range strings.Split(errb.String(), "\n") {
+		if strings.HasPrefix(l, "fatal error:") || strings.HasPrefix(l, "panic:") {
+			first = l
+			break
+		}
+	}
+	if len(first) > 100 {
+		first = first[:100]
+	}
+	return &Run{Violation: &Violation{Oracle: "process-survives", Class: "process-crashed:" + first, Message: fmt.Sprintf("the process executing the run died (%v)\n%s", runErr, msg)},
+		Counters: map[string]int64{"child_process_crashed": 1}, Choices: req.Choices}
+}
+
+func childMain(h *Harness, reqFile string) int {
+	b, err := os.ReadFile(reqFile)
+	if err != nil {
+		fmt.Fprintln(os.Stderr, err)
+		return 2
+	}
+	var req childReq
+	if err := json.Unmarshal(b, &req); err != nil {
+		fmt.Fprintln(os.Stderr, err)
+		return 2
+	}
+	if req.Args == nil {
+		req.Args = map[string]string{}
+	}
+	if h.Setup != nil {
+		if err := h.Setup(req.Args, req.Tier); err != nil {
+			fmt.Fprintf(os.Stderr, "harness setup failed: %v\n", err)
+			return 2
+		}
+	}
+	var st *choice.Stream
+	if req.Replay {
+		st = choice.Replay(req.Choices)
+	} else if req.EnumCase >= 0 {
+		st = choice.New(req.Seed, uint64(req.EnumCase)+1<<40)
+	} else {
+		st = choice.New(req.Seed, req.RunIx)
+	}
+	c := &Ctx{S: st, Tier: req.Tier, Trace: req.Trace, Seed: req.Seed, RunIx: req.RunIx, Args: req.Args}
+	var r *Run
+	if req.EnumCase >= 0 && h.Enum != nil {
+		r = h.Enum.RunCase(req.EnumCase, c)
+	} else {
+		r = h.Run(c)
+	}
+	r.Choices = st.Recorded()
+	out, err := json.Marshal(r)
+	if err != nil {
+		fmt.Fprintln(os.Stderr, err)
+		return 2
+	}
+	os.Stdout.WriteString(childMarker)
+	os.Stdout.Write(out)
+	return 0
+}
+
+// CallReference runs this binary in reference mode with req on stdin and
+// returns what it wrote.
+func CallReference(args map[string]string, tier string, req []byte) ([]byte, error) {
+	argv := []string{"-reference", "-tier", tier}
+	for k, v := range args {
+		argv = append(argv, "-arg", k+"="+v)
+	}
+	cmd := exec.Command(os.Args[0], argv...)
+	cmd.Stdin = bytes.NewReader(req)
+	var out, errb bytes.Buffer
+	cmd.Stdout, cmd.Stderr = &out, &errb
+	if err := cmd.Run(); err != nil {
+		return nil, fmt.Errorf("reference process: %v: %s", err, errb.String())
+	}
+	return out.Bytes(), nil
 }
